@@ -358,7 +358,7 @@ struct counters
 {
     long acquires = 0, adoptions = 0, creations = 0, scopes = 0, scopes_over_blocks = 0, scopes_grown_twice = 0, grows = 0,
          size_exceptions = 0, reacquire_after_release = 0, releases = 0, excl_checks = 0, points = 0, max_stacks = 0,
-         inside_checks = 0, contended_acquires = 0, release_checks = 0, release_checks_grown = 0, faults_hit = 0, faults_not_reached = 0, retries_after_fault = 0;
+         inside_checks = 0, contended_acquires = 0, release_checks = 0, release_checks_grown = 0, faults_hit = 0, faults_not_reached = 0, retries_after_fault = 0, closes_with_shrink = 0, outer_active_checks = 0;
 };
 static counters C;
 
@@ -466,6 +466,7 @@ struct scope_rec
     const tstack*            s = nullptr;
     snap                     at_ctor;
     fm::temporary_allocator* prev = nullptr;
+    bool                     shrink = false; // shrink_to_fit() was requested on this allocator
 };
 static void check_alloc(const scope_rec& sc, void* p, std::size_t n, std::size_t al)
 {
@@ -539,6 +540,16 @@ static void close_scope(scope_rec& sc)
              fmt("after ~temporary_allocator the stack is not as it was at construction: expected [%s], found [%s] (the scope "
                  "extended over %zu more block(s))",
                  snap_str(*sc.s, expect).c_str(), snap_str(*sc.s, after).c_str(), over));
+    if (after.active != sc.prev)
+        viol("active-chain-broken", sc.prev ? "after an inner temporary_allocator was destroyed the enclosing one is not the active allocator of the stack again"
+                                            : "after the outermost temporary_allocator was destroyed the stack still names an active allocator (dangling)");
+    if (sc.shrink)
+    {
+        ++C.closes_with_shrink;
+        if (sc.s->stack_.arena_.cache_size() != 0)
+            viol("shrink-not-honoured", fmt("shrink_to_fit() had been requested on the temporary_allocator, but after its destruction the stack still caches %zu block(s)",
+                                            sc.s->stack_.arena_.cache_size()));
+    }
 }
 static void scope_alloc(scope_rec& sc, std::size_t n, std::size_t al)
 {
@@ -1350,6 +1361,8 @@ static void add_counters(counters& a, const counters& b)
     a.faults_hit += b.faults_hit;
     a.faults_not_reached += b.faults_not_reached;
     a.retries_after_fault += b.retries_after_fault;
+    a.closes_with_shrink += b.closes_with_shrink;
+    a.outer_active_checks += b.outer_active_checks;
     a.max_stacks = std::max(a.max_stacks, b.max_stacks);
 }
 static std::string counters_json(const counters& c)
@@ -1369,6 +1382,8 @@ static std::string counters_json(const counters& c)
         .num("allocations_checked_inside_stack", c.inside_checks)
         .num("releases_checked_cleared_at_the_store", c.release_checks)
         .num("releases_checked_of_a_stack_that_had_grown", c.release_checks_grown)
+        .num("scopes_closed_with_a_shrink_to_fit_request", c.closes_with_shrink)
+        .num("enclosing_allocator_checked_active_after_inner_close", c.outer_active_checks)
         .num("upstream_failures_injected_and_hit", c.faults_hit)
         .num("upstream_failures_armed_but_not_reached", c.faults_not_reached)
         .num("acquisitions_after_a_failed_one", c.retries_after_fault)
@@ -1708,10 +1723,11 @@ enum sop
     S_FI2, // I+ with its 2nd malloc failing
     S_FG1, // G  with its 1st malloc failing
     S_FG2, // G  with its 2nd malloc failing
+    S_SHRINK, // shrink_to_fit() on the innermost temporary_allocator (once per scope; takes effect in its destructor)
     N_SOPS
 };
 static const char* const SOP_NAME[N_SOPS] = {"I+", "I-", "G", "open", "close", "alloc(8,8)", "alloc(100,16)", "alloc(3000,1)",
-                                               "I+[malloc#1 fails]", "I+[malloc#2 fails]", "G[malloc#1 fails]", "G[malloc#2 fails]"};
+                                               "I+[malloc#1 fails]", "I+[malloc#2 fails]", "G[malloc#1 fails]", "G[malloc#2 fails]", "shrink_to_fit()"};
 static const int         MAX_NEST          = 3;
 
 static std::string seq_str(const std::vector<int>& ops)
@@ -1889,6 +1905,10 @@ static void run_seq(const std::vector<int>& ops)
             close_scope(scopes.back());
             scopes.pop_back();
             break;
+        case S_SHRINK:
+            scopes.back().t->shrink_to_fit();
+            scopes.back().shrink = true;
+            break;
         case S_A1:
             scope_alloc(scopes.back(), 8, 8);
             break;
@@ -1898,6 +1918,12 @@ static void run_seq(const std::vector<int>& ops)
         case S_A3:
             scope_alloc(scopes.back(), 3000, 1);
             break;
+        }
+        if (op == S_CLOSE && g_viol.empty() && !scopes.empty())
+        {
+            ++C.outer_active_checks;
+            if (!scopes.back().t->is_active())
+                viol("active-chain-broken", "after an inner temporary_allocator was destroyed the enclosing, now innermost one reports is_active() == false");
         }
         seq_state(int(inits.size()), scopes);
         if (!g_viol.empty())
@@ -1910,6 +1936,20 @@ static void run_seq(const std::vector<int>& ops)
         scopes.pop_back();
         if (!g_viol.empty())
             return;
+        if (!scopes.empty())
+        {
+            ++C.outer_active_checks;
+            if (!scopes.back().t->is_active())
+            {
+                viol("active-chain-broken", "after an inner temporary_allocator was destroyed the enclosing, now innermost one reports is_active() == false");
+                return;
+            }
+        }
+    }
+    if (t.cur && t.cur->top_ != nullptr)
+    {
+        viol("active-chain-broken", "all temporary_allocator objects of the thread are destroyed but the stack still names an active allocator");
+        return;
     }
     while (!inits.empty())
     {
@@ -1952,7 +1992,7 @@ static void warm_up()
 }
 
 // all valid sequences with 1..D operations
-static void gen_seqs(int D, std::vector<int>& cur, int ninit, int nscope, bool has, bool faulted, std::vector<std::vector<int>>& out)
+static void gen_seqs(int D, std::vector<int>& cur, int ninit, int nscope, bool has, bool faulted, unsigned shr, std::vector<std::vector<int>>& out)
 {
     if (!cur.empty())
         out.push_back(cur);
@@ -1960,10 +2000,16 @@ static void gen_seqs(int D, std::vector<int>& cur, int ninit, int nscope, bool h
         return;
     for (int op = 0; op < N_SOPS; ++op)
     {
-        int  ni = ninit, ns = nscope;
-        bool h = has, f = faulted;
+        int      ni = ninit, ns = nscope;
+        bool     h = has, f = faulted;
+        unsigned sh = shr; // bit k: scope at nesting level k has a shrink_to_fit() request
         switch (op)
         {
+        case S_SHRINK:
+            if (nscope == 0 || ((shr >> (nscope - 1)) & 1u))
+                continue;
+            sh |= 1u << (nscope - 1);
+            break;
         case S_FI1:
         case S_FI2:
         case S_FG1:
@@ -1996,13 +2042,14 @@ static void gen_seqs(int D, std::vector<int>& cur, int ninit, int nscope, bool h
             if (nscope == 0)
                 continue;
             --ns;
+            sh &= ~(1u << ns);
             break;
         default:
             if (nscope == 0)
                 continue;
         }
         cur.push_back(op);
-        gen_seqs(D, cur, ni, ns, h, f, out);
+        gen_seqs(D, cur, ni, ns, h, f, sh, out);
         cur.pop_back();
     }
 }
@@ -2076,7 +2123,7 @@ static int seq_main(const argmap& a)
 
     std::vector<std::vector<int>> all;
     std::vector<int>              cur;
-    gen_seqs(D, cur, 0, 0, false, false, all);
+    gen_seqs(D, cur, 0, 0, false, false, 0u, all);
     std::vector<std::size_t> mine;
     for (std::size_t i = 0; i < all.size(); ++i)
         if (long(i % std::size_t(parts)) == part)
